@@ -289,7 +289,10 @@ fn run_case<D: Dec>(li: usize, setup: &[KOp], checked: &[KOp], out: &mut Out) {
         Ok((Some((_i, _op, m)), _)) if m.what == "both-panicked" => {
             out.both_panicked += 1;
         }
-        Ok((Some((_i, op, m)), _)) => {
+        Ok((Some((i, op, m)), _)) => {
+            // the replay needs the operations up to the one that went wrong, not the rest of the case
+            let upto = if i == usize::MAX { all.len() } else { (setup.len() + i + 1).min(all.len()) };
+            let all = &all[..upto];
             if out.violations.len() < 3000 {
                 out.violations.push((
                     format!("C18|{}|op={}|{}", set_name(D::SET), op_class(&op), m.what),
@@ -444,6 +447,40 @@ pub fn run<D: Dec>(rep: &mut Report) {
                     setup.extend(bits_of_prefix(n, v));
                     run_case::<D>(w as usize % 10, &setup, &[KOp::Word(w)], &mut out);
                     out.distinct.insert((1, w as u64));
+                }
+            }
+        }
+        // -- one entry point called k times in a row (an idle-timer driver calling clear(), a stuck line, a repeated byte),
+        //    with modifiers held / a prefix pending / a partial frame parked, then every entry point once more
+        {
+            let setups: Vec<Vec<KOp>> = vec![
+                vec![KOp::Ev(KeyCode::LShift, KeyState::Down), KOp::Ev(KeyCode::RControl, KeyState::Down), KOp::Ev(KeyCode::CapsLock, KeyState::Down)],
+                vec![KOp::Ev(KeyCode::RAltGr, KeyState::Down), KOp::Byte(0xE0)],
+                vec![KOp::Ev(KeyCode::LAlt, KeyState::Down), KOp::Bit(false), KOp::Bit(true), KOp::Bit(true)],
+            ];
+            let frame = encode_frame(if D::SET == 1 { 0x1E } else { 0x1C });
+            let mut probes: Vec<KOp> = vec![KOp::Ev(KeyCode::A, KeyState::Down), KOp::Ev(KeyCode::A, KeyState::Up), KOp::Byte(if D::SET == 1 { 0x1E } else { 0x1C }), KOp::Word(frame)];
+            probes.extend((0..11).map(|i| KOp::Bit((frame >> i) & 1 == 1)));
+            probes.push(KOp::Ev(KeyCode::Key1, KeyState::Down));
+            let reps: [(KOp, &[usize]); 6] = [
+                (KOp::Clear, &[1, 2, 10, 100, 199, 200, 201, 255, 256, 257, 1000, 65_535, 65_536, 70_000]),
+                (KOp::Byte(0xE0), &[2, 10, 255, 256, 257, 1000, 70_000]),
+                (KOp::Bit(true), &[11, 12, 255, 256, 257, 1000, 2816]),
+                (KOp::Word(0x7FF), &[2, 255, 256, 257, 1000]),
+                (KOp::Mode(HandleControl::Ignore), &[2, 255, 256, 257, 1000]),
+                (KOp::Ev(KeyCode::F1, KeyState::Up), &[2, 255, 256, 257, 1000]),
+            ];
+            for (si, setup) in setups.iter().enumerate() {
+                for (op, ks) in reps.iter() {
+                    for k in ks.iter() {
+                        if !mine(&mut case_no) {
+                            continue;
+                        }
+                        let mut checked: Vec<KOp> = vec![*op; *k];
+                        checked.extend(probes.iter().cloned());
+                        run_case::<D>((si + k) % 10, setup, &checked, &mut out);
+                        out.distinct.insert((6, (si * 100_000 + k) as u64));
+                    }
                 }
             }
         }
